@@ -36,7 +36,7 @@ def gates(c, tier):
             if c.get(f"cell:{k}:{ic}", 0) == 0:
                 out.append(f"no {k} with id class {ic}")
     for k in ("search-with>=3-results-before-done", "duplicate-final-response", "request-type-delivered", "batched-delivery", "chunked-delivery",
-              "accepted-response", "rejected-response", "ids-checked", "response-with-paged-control", "long-lived-client"):
+              "accepted-response", "rejected-response", "ids-checked", "response-with-paged-control", "long-lived-client", "many-outstanding-operations"):
         if c.get(k, 0) == 0:
             out.append(f"never observed {k}")
     return out[:12]
@@ -80,7 +80,58 @@ def run_steps(steps):
     return [], drv
 
 
+def many_outstanding(seed, n_ops, order):
+    """n_ops operations outstanding at once (searches and extended operations, bind last when everything is answered),
+    answered oldest-first, newest-first, randomly or interleaved with entries; then every id is answered once more
+    (must be refused). Returns the concrete steps."""
+    import random
+
+    r = random.Random(seed)
+    steps = []
+    kinds = {}
+    for k in range(1, n_ops + 1):
+        if r.random() < 0.5:
+            steps.append(("search", "dc=x", 2, 0, 0, 0, False, None, None, None))
+            kinds[k] = "search"
+        else:
+            steps.append(("extended", "1.2.3", None, None))
+            kinds[k] = "extended"
+    ids = list(range(1, n_ops + 1))
+    if order == "newest-first":
+        ids.reverse()
+    elif order == "random":
+        r.shuffle(ids)
+    elif order == "evens-then-odds":
+        ids = [i for i in ids if i % 2 == 0] + [i for i in ids if i % 2]
+    res = (0, "", "", None)
+    for j, mid in enumerate(ids):
+        if kinds[mid] == "search":
+            if j % 3 == 0:
+                steps.append(("receive", rfc4511.encode(("SearchResultEntry", mid, ("cn=e", ()), ()))))
+            steps.append(("receive", rfc4511.encode(("SearchResultDone", mid, (res,), ()))))
+        else:
+            steps.append(("receive", rfc4511.encode(("ExtendedResponse", mid, (res, None, None), ()))))
+    # everything answered: a bind may start now; afterwards one of the retired ids is answered again (refused)
+    steps.append(("bind_simple", "cn=a", "pw", None))
+    steps.append(("receive", rfc4511.encode(("BindResponse", n_ops + 1, (res, None), ()))))
+    steps.append(("receive", rfc4511.encode(("SearchResultDone", r.choice(ids), (res,), ()))))
+    return steps
+
+
 def run_shard(ctx: Ctx, acc: Acc):
+    combos = [(n_ops, order) for n_ops in (2, 33, 64, 257, 1000) for order in ("oldest-first", "newest-first", "random", "evens-then-odds")]
+    for ci, (n_ops, order) in enumerate(combos):
+        if ci % ctx.nshards != ctx.shard:
+            continue
+        acc.case()
+        acc.count("many-outstanding-operations")
+        acc.nontrivial("many", n_ops, order)
+        vio, drv = run_steps(many_outstanding(ctx.seed * 131 + ci, n_ops, order))
+        acc.count("trace-events", len(drv.trace))
+        if not vio and (drv.sess.state.name != "CLOSED" or drv.model.how_closed != "unknown-id"):
+            vio = [("many-outstanding:final-duplicate-not-refused", f"{n_ops} operations answered {order}: the repeated final response left state {drv.sess.state.name}")]
+        for key, what in vio:
+            acc.violation(key, what + f" [{n_ops} operations outstanding at once, answered {order}]", {"many": [ctx.seed * 131 + ci, n_ops, order]})
     n = ctx.scale(40_000, 1_000_000)
     for i in range(n):
         r = ctx.rng(i)
@@ -209,6 +260,8 @@ def run_shard(ctx: Ctx, acc: Acc):
 
 
 def replay(w):
+    if w.get("many"):
+        return run_steps(many_outstanding(*w["many"]))[0]
     vio, drv = run_steps([to_tuple(a) for a in w["steps"]])
     ids = drv.ids_returned
     if ids and (any(b <= a_ for a_, b in zip(ids, ids[1:])) or ids[0] <= 0):
